@@ -314,7 +314,7 @@ def run(ctx):
                 'over (node,new status,inducing neighbour) == rate share (1e-9), clock rate == total, array-mode counts law. '
                 'Non-trivial: >=3 events, >=2 enabled transition kinds initially, >=1 induced event; distinct by case digest.'
                 % (4 if quick else 5))
-    ctx.assumptions = ['statuses are sortable strings (documented determinism precondition)', 'no self-loops / multi-edges',
+    ctx.assumptions = ['statuses are sortable strings (documented determinism precondition)', 'no multi-edges (self-loops are generated: a node does not act on itself)',
                        'with return_full_data all statuses are listed in return_statuses (array mode uses arbitrary subsets)',
                        'rate functions are pure functions of (node) / (source,target) and kwargs']
     only = getattr(ctx, 'only', None)
